@@ -349,8 +349,11 @@ func cStackWrites(c *ctx, d *cdrv) error {
 			}
 			if j == 0 {
 				// an anchor that is never deleted: the stack never becomes empty, so both
-				// implementations keep counting update indices from the same place
-				nm = append(nm, "refs/~anchor")
+				// implementations keep counting update indices from the same place.  The first
+				// transaction holds nothing else: a name conflict among its other refs would
+				// refuse the anchor with them (a thorough run met that: the stack emptied, C
+				// restarted at index 1 and rightly accepted an Addition the harness had numbered 7)
+				nm = []string{"refs/~anchor"}
 			}
 			sort.Strings(nm)
 			for _, k := range nm {
